@@ -88,7 +88,20 @@ W207(y) == IF y = 0 THEN 0 ELSE (10 * y + 2) \div 3
 (***************************************************************************)
 (* Field contents                                                          *)
 (***************************************************************************)
-Cls(idx, s) == (idx + seed + (s - 1) * (idx % 3)) % 5
+(* Value classes rotate over the output positions; how the subsets of one position relate rotates too:
+     position % 4 = 0   all subsets carry the same class (possibly all missing)
+                  1   consecutive classes (all different)
+                  2   one class in some subsets, missing in the others ("equal except where missing")
+                  3   classes two apart
+   so that compressed columns of every kind - all equal, all missing, equal-with-missing, different,
+   different-with-missing - occur in every template of four or more fields *)
+ClsOf(idx, s, n) ==
+    LET b == idx + seed IN
+    CASE idx % 4 = 0 -> b % n
+      [] idx % 4 = 1 -> (b + (s - 1)) % n
+      [] idx % 4 = 2 -> IF (s + seed) % 2 = 0 THEN 4 ELSE (LET c == b % (n - 1) IN IF c >= 4 THEN c + 1 ELSE c)
+      [] OTHER -> (b + 2 * (s - 1)) % n
+Cls(idx, s) == ClsOf(idx, s, 5)
 
 StrOctet(c, i) ==
     CASE c = 0 -> 32
@@ -101,7 +114,7 @@ StrPattern(c, nbytes) == OctetsToBits([i \in 1..nbytes |-> StrOctet(c, i)])
 (* the pattern chosen for subset s at output position idx.  w0 is the width the element has in Table B: a
    field that an operator has WIDENED (w0 < w) takes a sixth class, the all-ones pattern of the table width -
    a value that is not missing in the field as it stands *)
-Cls6(idx, s) == (idx + seed + (s - 1) * (idx % 3)) % 6
+Cls6(idx, s) == ClsOf(idx, s, 6)
 Pattern(t, w, idx, s, w0) ==
     IF t = "str" THEN StrPattern(Cls(idx, s), w \div 8)
     ELSE IF t = "ref"
